@@ -192,7 +192,39 @@ func laStructs(c *Ctx, rule string) {
 			}
 		}
 		if !hasNil || !hasPos {
-			bad = append(bad, "the recursion is not guarded by `child.num_children != nil && > 0`")
+			// or by a helper predicate on the child that makes those two tests
+			viaHelper := false
+			for d := rec.Block(); d != nil && !viaHelper; d = d.Idom() {
+				id := d.Idom()
+				if id == nil {
+					break
+				}
+				iff, isIf := lastInstr(id).(*ssa.If)
+				if !isIf {
+					continue
+				}
+				cond, wantTruth := iff.Cond, true
+				if not, isNot := cond.(*ssa.UnOp); isNot && not.Op == token.NOT {
+					cond, wantTruth = not.X, false
+				}
+				call, isCall := cond.(*ssa.Call)
+				if !isCall || call.Call.StaticCallee() == nil || call.Call.StaticCallee().Blocks == nil || len(call.Call.Args) != 1 {
+					continue
+				}
+				succ := id.Succs[0]
+				if !wantTruth {
+					succ = id.Succs[1]
+				}
+				if !(succ == rec.Block() || succ.Dominates(rec.Block())) || len(succ.Preds) != 1 {
+					continue
+				}
+				if groupPredicate(call.Call.StaticCallee()) {
+					viaHelper = true
+				}
+			}
+			if !viaHelper {
+				bad = append(bad, "the recursion is not guarded by `child.num_children != nil && > 0`")
+			}
 		}
 	} else {
 		bad = append(bad, "unexpected recursion arity")
@@ -334,4 +366,62 @@ func appendedValuesOfVariadic(v ssa.Value) []ssa.Value {
 		res = append(res, out[i])
 	}
 	return res
+}
+
+// groupPredicate: h(elem) is true exactly when elem.NumChildren != nil && *elem.NumChildren > 0: every `true`-capable
+// return is a positivity test of the loaded child count, reached only past a nil test of the pointer.
+func groupPredicate(h *ssa.Function) bool {
+	if len(h.Params) != 1 {
+		return false
+	}
+	isNC := func(v ssa.Value) bool { f := fieldOfLoad(v); return f != nil && f.Name() == "NumChildren" }
+	var positive func(v ssa.Value, d int) bool
+	positive = func(v ssa.Value, d int) bool {
+		if d > 4 {
+			return false
+		}
+		switch x := v.(type) {
+		case *ssa.BinOp:
+			inner := stripConvert(x.X)
+			ld, ok := inner.(*ssa.UnOp)
+			if !ok || ld.Op != token.MUL || !isNC(ld.X) {
+				return false
+			}
+			return (x.Op == token.GTR && constIs(x.Y, 0)) || (x.Op == token.GEQ && constIs(x.Y, 1)) || (x.Op == token.NEQ && constIs(x.Y, 0))
+		case *ssa.Phi:
+			some := false
+			for _, e := range x.Edges {
+				if constBool(e, false) {
+					continue
+				}
+				if !positive(e, d+1) {
+					return false
+				}
+				some = true
+			}
+			return some
+		}
+		return false
+	}
+	nilTest := false
+	for _, b := range h.Blocks {
+		if iff, ok := lastInstr(b).(*ssa.If); ok {
+			if bo, ok := iff.Cond.(*ssa.BinOp); ok && (bo.Op == token.EQL || bo.Op == token.NEQ) && isNilConst(bo.Y) && isNC(bo.X) {
+				nilTest = true
+			}
+		}
+	}
+	some := false
+	for _, b := range h.Blocks {
+		if ret, ok := lastInstr(b).(*ssa.Return); ok && len(ret.Results) == 1 {
+			if constBool(ret.Results[0], false) {
+				continue
+			}
+			if !positive(ret.Results[0], 0) {
+				return false
+			}
+			some = true
+		}
+	}
+	return some && nilTest
 }
